@@ -29,6 +29,7 @@ OUT_OF_SCOPE = {
     "C19_r": "needs a pool task left in asyncio's cancelled state by user code that raises CancelledError, then a 'flush' command over it: the socket engine drives an empty pool (the pool engine covers such tasks, the in-process session engine has no real connection to leave open); not generated",
     "C19_s": "needs serve_forever() to be called a second time on a TCP server that is already serving on a fixed port (the call fails with EADDRINUSE): starting a running server again is not among the orders of connect / command / disconnect / stop the statement quantifies over; the check restarts only after a stop and uses ephemeral ports",
     "C16_u": "written against C16 but is about how a command line is split into tokens (shlex instead of split): replies and effects of commands with quotes differ from the method call -> caught by the C17 check (1100 programs) and the C18 check",
+    "C18_u": "written against C18 but lives in the server's connection callback (connections registered by peer address, which is '' for every Unix client): caught by the C19 check, the C18 harness drives sessions directly",
     "C04_j": "needs pool_size to be reassigned while a spawner waits for room - the territory of the open finding D4 (on the unchanged tree such a waiter also stays blocked after the assignment), where completeness is not demanded",
 }
 
